@@ -664,17 +664,49 @@ class _Gen:
             val = self.usize_consts[c]
             it.render = lambda ref: "%s :: %s;" % (name, ref(c))
             self.usize_aliases = getattr(self, "usize_aliases", []) + [name]
-        elif self.usize_consts and "const_chain" in self.f and r.random() < 0.4:
+        elif self.usize_consts and "const_chain" in self.f and r.random() < 0.6:
             c = r.choice(sorted(self.usize_consts))
             it.deps.add(c)
-            val = self.usize_consts[c] + 1
-            it.render = lambda ref: "%s : usize : comptime { %s + 1 };" % (name, ref(c))
+            if r.random() < 0.4:
+                val = self.usize_consts[c] + 1
+                it.render = lambda ref: "%s : usize : comptime { %s + 1 };" % (name, ref(c))
+            else:
+                # the other constant is read in both branches (and in the condition): places that
+                # do not dominate each other
+                # (the condition must not read it, or that first read would dominate the others)
+                cv = self.usize_consts[c]
+                others = [o for o in sorted(self.usize_consts) if o != c]
+                if others and r.random() < 0.5:
+                    o = r.choice(others)
+                    it.deps.add(o)
+                    even = self.usize_consts[o] % 2 == 0
+                    cond = lambda ref: "%s %% 2 == 0" % ref(o)
+                else:
+                    k = r.randint(1, 9)
+                    even = k % 2 == 0
+                    cond = lambda ref: "i64.(%d) %% 2 == 0" % k
+                val = cv + 1 if even else cv + 2
+                it.render = lambda ref: (
+                    "%s : usize : comptime { if %s { %s + 1 } else { %s + 2 } };"
+                    % (name, cond(ref), ref(c), ref(c)))
+                self.force_size_use = name
         else:
             val = r.randint(1, 4)
-            it.render = lambda ref: "%s : usize : %d;" % (name, val)
+            if r.random() < 0.4:
+                # a constant that has a comptime block of its own (which may or may not have been
+                # evaluated by the time another block reads it)
+                a = r.randint(0, val)
+                it.render = lambda ref: "%s : usize : comptime { %d + %d };" % (name, a, val - a)
+            else:
+                it.render = lambda ref: "%s : usize : %d;" % (name, val)
         it.uses = lambda ref, tmp: ["emit(i64.(%s));" % ref(name)]
         self.p.add(it)
         self.usize_consts[name] = val
+        if getattr(self, "force_size_use", None) == name:
+            # such a constant is always used as an array size as well: that is what makes the
+            # checker evaluate its block on demand
+            self.force_size_use = None
+            self.mk_array_type_alias(size_const=name)
 
     def mk_struct(self):
         name = self.fresh("S")
@@ -1914,7 +1946,7 @@ class _Gen:
         if elem == "i64":
             self.global_arrays = getattr(self, "global_arrays", []) + [name]
 
-    def mk_array_type_alias(self):
+    def mk_array_type_alias(self, size_const=None):
         if not self.usize_consts:
             return self.mk_usize()
         r = self.rnd
@@ -1923,6 +1955,8 @@ class _Gen:
         c = r.choice(sorted(self.usize_consts))
         if getattr(self, "usize_aliases", None) and r.random() < 0.7:
             c = r.choice(self.usize_aliases)
+        if size_const:
+            c = size_const
         n = self.usize_consts[c]
         it.deps.add(c)
         t = r.choice(["i64", "i64", "u8", "i32"])
